@@ -11,6 +11,14 @@ CHECKS = {
              "&mut effects must equal the model's prediction and the direct call's. Exhaustive enumeration, no sampling.",
         note=NOTE, technique="bounded-exhaustive explicit-state enumeration of programs, executed on the real macro, compared with a reference model",
         ref="DESIGN.md §3 C01"),
+    "C02": dict(
+        text="fn: the default function plus every combination of <=2 (quick) / <=3 (thorough) deviations over 8 syntactic dimensions "
+             "(attributes above/below, visibility, qualifiers, generics/where, parameter attributes/trailing comma, return type, 10 body "
+             "token soups); mod: every item word up to the bound over an 18-symbol item alphabet; impl: every item word over 6 symbols x "
+             "{static, ref}. Each state is expanded by the real macro; the recorded input token tree must be a prefix of the output (fn), "
+             "of the module body followed only by the generated trait+impl and the re-export (mod), or equal to the inherent impl's body (impl).",
+        note=NOTE, technique="bounded-exhaustive enumeration of programs; token-tree comparison of recorded macro input vs output (identity model)",
+        ref="DESIGN.md §3 C02"),
 }
 
 NOT_APPLICABLE = {}
